@@ -96,10 +96,10 @@ finding(["C14"], "F1", "tensor.numpyDtypes[Uint32]", "GOARCH=386: Uint32 is writ
 finding(["C14"], "L1", "tensor.(*Dense).GobEncode@.Encode(&%data) ?$r.IsMaterializable()", "GobEncode of a view writes the whole storage window under the view's shape; GobDecode's sanity check rejects it (expected (3), got 7)", "without a test of $r.IsMaterializable()", 28)
 finding(["C16","C20"], "L3", "tensor.(Float32Engine).Add@V. ⊨ $a.DataOrder().HasSameOrder($b.DataOrder())", "Float32Engine.Add discards prepDataVV's useIter and only tests RequiresIterator: row-major + column-major adds raw storage ([0 4 3 7 6 10])", "goal", 21)
 finding(["C16","C20"], "L3", "tensor.(Float64Engine).Add@V. ⊨ $a.DataOrder().HasSameOrder($b.DataOrder())", "Float64Engine.Add discards prepDataVV's useIter and only tests RequiresIterator: row-major + column-major adds raw storage ([0 4 3 7 6 10])", "goal", 21)
-finding(["C16"], "L3", "tensor.Copy@copyDense(%dt, %ts) ⊨ %ts.DataOrder().HasSameOrder(%dt.DataOrder())", "Copy between a column-major and a row-major tensor is a raw memcpy: [[0,1,2],[3,4,5]] becomes [0 3 1 4 2 5]", "goal", 18)
-finding(["C16"], "L4", "tensor.ToMat64@mat.NewDense( ?$t.DataOrder().IsColMajor()", "ToMat64 hands column-major storage to the row-major mat.Dense", "without a test of $t.DataOrder().IsColMajor()", 18)
 
 FIXED = [
+ {"property":"C16","commit":"a5a4aba","rule":"L3","key":"tensor.Copy@copyDense(%dt, %ts) ⊨ %ts.DataOrder().HasSameOrder(%dt.DataOrder())","what":"fixed: property=C16 a5a4aba Copy between a column-major and a row-major tensor was a raw memcpy: [[0,1,2],[3,4,5]] became [0 3 1 4 2 5] (DESIGN finding 18, Copy part)"},
+ {"property":"C16","commit":"15e2b9f","rule":"L4","key":"tensor.ToMat64@mat.NewDense( ?$t.DataOrder().IsColMajor()","what":"fixed: property=C16 15e2b9f ToMat64 handed column-major storage to the row-major mat.Dense (DESIGN finding 18, ToMat64 part)"},
  {"property":"C14","commit":"484f8b3","rule":"L1","key":"tensor.(*Dense).WriteNpy@for ($r.len() > %i) ?$r.RequiresIterator()","what":"fixed: property=C14 484f8b3 WriteNpy emitted Get(0..len) in storage order under a header that declares C order: a column-major, sliced or lazily transposed tensor was read back as different data (DESIGN finding 18, WriteNpy part)"},
  {"property":"C08","commit":"865b98b","rule":"EC","key":"tensor.(StdEng).prepReduce#Reshape1","what":"fixed: property=C08 865b98b prepReduce dropped the error of reuse.Reshape(newShape...): a reuse tensor that cannot be reshaped (non-contiguous view) was reduced into with its old shape (DESIGN finding 23)"},
  {"property":"C19","commit":"6e5ad4a","rule":"T2","key":"tensor.reuseCheckShape#reuse","what":"fixed: property=C19 6e5ad4a reuseCheckShape returned a reuse tensor's transposeWith slice to the ints pool and left the field pointing at it: the slice was returned a second time by ReturnTensor/UT (DESIGN finding 12)"},
